@@ -97,17 +97,11 @@ theorem hook_stk {s s' : State} {a val : Nat} {p : Option Int} (h : s.hook a val
   · rfl
   · exact processHook_stk _ _ _ _ _ _
 
-/-- hypothesis of the partial theorem for one hook: when the vote is kept, every weighted split of
-    the power difference is integral -/
-def HookDivisible (s : State) (a val : Nat) (p : Option Int) : Prop :=
-  ∀ v, alookup a s.votes = some v →
-    s.minVP ≤ v.vp + (p.getD 0 - pOf s.dvp a val) → Divisible (p.getD 0 - pOf s.dvp a val) v.weights
-
 theorem hook_good {s s' : State} {a val : Nat} {p : Option Int} (wf : WF s) (inv : DistInv s)
-    (hd : HookDivisible s a val p) (h : s.hook a val p = .ok s') : WF s' ∧ DistInv s' := by
+    (h : s.hook a val p = .ok s') : WF s' ∧ DistInv s' := by
   rcases hook_ok h with ⟨_, rfl⟩ | ⟨v, hv, rfl⟩
   · exact ⟨wf, inv⟩
-  · exact processHook_inv wf inv hv (hd v hv)
+  · exact processHook_inv wf inv hv
 
 theorem hook_tracked {s s' : State} {T : PTable} {a val : Nat} {p : Option Int} (hk : KeysNodup T)
     (ht : Track s T) (hm : MinInv s) (hc : DvpClean s) (h : s.hook a val p = .ok s') :
@@ -143,12 +137,8 @@ theorem hook_min {s s' : State} {a val : Nat} {p : Option Int} (hm : MinInv s) (
 
 /-! ### hook lists, staking ops -/
 
-def HooksDivisible (s : State) (a : Nat) : List (Nat × Option Int) → Prop
-  | [] => True
-  | h :: hs => HookDivisible s a h.1 h.2 ∧ ∀ s1, s.hook a h.1 h.2 = .ok s1 → HooksDivisible s1 a hs
-
 theorem hooks_good {s s' : State} {a : Nat} {hs : List (Nat × Option Int)} (wf : WF s) (inv : DistInv s)
-    (hd : HooksDivisible s a hs) (h : s.hooks a hs = .ok s') : WF s' ∧ DistInv s' := by
+    (h : s.hooks a hs = .ok s') : WF s' ∧ DistInv s' := by
   induction hs generalizing s with
   | nil => cases h; exact ⟨wf, inv⟩
   | cons x xs ih =>
@@ -156,8 +146,8 @@ theorem hooks_good {s s' : State} {a : Nat} {hs : List (Nat × Option Int)} (wf 
     split at h
     · cases h
     · rename_i s1 h1
-      have := hook_good wf inv hd.1 h1
-      exact ih this.1 this.2 (hd.2 s1 h1) h
+      have := hook_good wf inv h1
+      exact ih this.1 this.2 h
 
 theorem hooks_min {s s' : State} {a : Nat} {hs : List (Nat × Option Int)} (hm : MinInv s)
     (h : s.hooks a hs = .ok s') : MinInv s' := by
@@ -209,15 +199,6 @@ theorem hooks_tracked {s s' : State} {T : PTable} {a : Nat} {hs : List (Nat × O
 
 /-! ### hypotheses over op lists -/
 
-def OpDivisible (s : State) : Op → Prop
-  | .staking a hs _ => HooksDivisible s a hs
-  | _ => True
-
-/-- every staking hook along the run splits its power difference integrally -/
-def RunDivisible (s : State) : List Op → Prop
-  | [] => True
-  | op :: ops => OpDivisible s op ∧ RunDivisible (step s op).1 ops
-
 def OpFaithful : Op → Prop
   | .staking a hs fin => fin = finOf a hs
   | .slash _ => False
@@ -232,7 +213,7 @@ structure Tracked (s : State) : Prop where
   track : Track s s.stk
   clean : DvpClean s
 
-theorem step_good {s : State} {op : Op} (wf : WF s) (inv : DistInv s) (hd : OpDivisible s op) :
+theorem step_good {s : State} {op : Op} (wf : WF s) (inv : DistInv s) :
     WF (step s op).1 ∧ DistInv (step s op).1 := by
   cases op with
   | vote a ws =>
@@ -255,7 +236,7 @@ theorem step_good {s : State} {op : Op} (wf : WF s) (inv : DistInv s) (hd : OpDi
       · cases h
       · rename_i s2 h2
         cases h
-        have := hooks_good wf inv hd h2
+        have := hooks_good wf inv h2
         exact ⟨⟨this.1.minVP, this.1.sorted, this.1.keys, this.1.votes⟩, ⟨this.2.gauges, this.2.vp⟩⟩
     · exact ⟨wf, inv⟩
   | slash fin => exact ⟨⟨wf.minVP, wf.sorted, wf.keys, wf.votes⟩, ⟨inv.gauges, inv.vp⟩⟩
